@@ -353,6 +353,8 @@ def concrete(x):
         return v.as_long()
     if isinstance(x, SymQ):
         v = z3.simplify(x.num)
+        if not z3.is_int_value(v) and engine.have_run():
+            return Fraction(concrete(SymInt(x.num)), x.den)
         assert z3.is_int_value(v), "not constant: %s" % v
         return Fraction(v.as_long(), x.den)
     if isinstance(x, SymBool):
